@@ -114,6 +114,15 @@ STRFUN = [
     ("Z$=LEFT$(S$+T$,N)+RIGHT$(T$,1)", "stn"), ("Z=LEN(MID$(S$,P,N))", "spn"), ("Z$=HEX$(N*7)", "n"),
 ]
 STRS = [""] + ["".join(p) for k in (1, 2, 3) for p in itertools.product("AB", repeat=k)]
+LONG = [
+    (["10 A$=\"{L}\":PRINT A$;LEN(A$)"], "scalar"), (["10 N$(1)=\"{L}\":PRINT N$(1);LEN(N$(1))"], "implicit-array"),
+    (["7 DIM M$(2)", "10 M$(2)=\"{L}\":PRINT M$(2)"], "dimensioned-array"), (["7 DIM Q$", "10 Q$=\"{L}\":PRINT Q$"], "dimensioned-scalar"),
+    (["10 A$=\"{H}\":B$=A$+A$:PRINT B$:C$(3)=B$+\"!\":PRINT C$(3)"], "concatenation"), (["10 INPUT A$,B$:PRINT A$:PRINT B$"], "input"),
+    (["10 LINE INPUT A$:PRINT LEN(A$);A$"], "line-input"), (["10 INPUT N$(2):PRINT N$(2)"], "input-implicit-array"),
+    (["10 READ A$,N$(1):PRINT A$:PRINT N$(1)", "20 DATA {L},\"{L}\""], "read"), (["10 A$=\"{L}\":B$=MID$(A$,2,36):PRINT B$;RIGHT$(A$,34)"], "substring"),
+    (["10 A$=\"{H}\":PRINT A$+A$:Z$=STR$(LEN(A$+A$))+A$+A$:PRINT Z$"], "temporaries"), (["10 N$(1)=\"{H}\":N$(2)=N$(1)+N$(1):IF N$(2)=N$(1)+N$(1) THEN PRINT \"SAME\""], "compare"),
+    (["10 A$=STRING$(40,\"*\"):PRINT A$;LEN(A$)"], "string-function"), (["10 FOR I=1 TO 2:T$(I)=\"{L}\":NEXT:PRINT T$(1);T$(2)"], "loop"),
+]
 INITIAL = [
     (["10 PRINT A"], "only-print"), (["10 PRINT B$"], "only-print-str"), (["10 Z=LEN(H$)"], "only-in-function-argument"),
     (["10 Z=ABS(Q)"], "only-in-function-argument"), (["10 Z$=LEFT$(H$,Q)"], "only-in-function-argument"),
@@ -198,6 +207,13 @@ def main():
         for sz in (32, 80):
             add(lines + ["90 END"], "initial:" + tag, {"initialize_vars": True, "default_str_storage": sz},
                 [{"inp": s_inp("1", "2", "3"), "dev": [1, 2]}])
+    # strings longer than BASIC09's 32 bytes with a requested size they fit: every string variable, element and temporary
+    # must have been given that size (BASIC09 cuts a string to the declared size of what it is stored in)
+    L = "ABCDEFGHIJKLMNOPQRSTUVWXYZ0123456789ABCD"
+    for lines, tag in LONG:
+        for init in (False, True):
+            plan.append({"lines": [l.replace("{L}", L).replace("{H}", L[:20]) for l in lines] + ["90 END"], "tag": "long:" + tag, "cut": True, "fuel": 150,
+                         "opts": dict(base, initialize_vars=init, default_str_storage=80), "scripts": [{"inp": s_inp(L, L[:35]), "dev": []}]})
     cases, vds = refcheck.run(rep, wd, plan)
     for c in cases:
         rep.count("family:" + c["tag"].split(":")[0])
@@ -218,6 +234,8 @@ def main():
         (["5 INPUT A,B$", "10 Z$=LEFT$(\"ABC\",1)"], o, two, "LEFT$", "RIGHT$"),
         (["5 INPUT A,B$", "10 Z$=MID$(\"ABC\",2,1)"], o, two, "2.0, 1.0", "1.0, 2.0"),
         (["10 Z=Q+1", "90 END"], {"initialize_vars": True}, [{"inp": [], "dev": []}], "Q := 0.0", "REM"),
+        (["10 N$(1)=\"ABCDEFGHIJKLMNOPQRSTUVWXYZ0123456789ABCD\":PRINT N$(1)"], {"add_standard_prefix": False, "default_str_storage": 80}, two, "DIM arr_N$(11): STRING[80]", "DIM arr_N$(11)"),
+        (["10 A$=\"ABCDEFGHIJKLMNOPQRSTUVWXYZ0123456789ABCD\":PRINT A$"], {"add_standard_prefix": False, "default_str_storage": 80}, two, "DIM A$:STRING[80]", "DIM A$:STRING[39]"),
     ])
     return rep.finish({"exhaustive": False, "bounds": {"print_list_len": 6 if thorough else 4, "data_items": 4 if thorough else 3,
                                                        "string_len": 3, "indices": "0..4"}})
